@@ -7,6 +7,7 @@ import (
 	"fmt"
 	"github.com/cuteLittleDevil/go-jt808/service"
 	"math/rand"
+	"net"
 	"strings"
 	"sync"
 	"sync/atomic"
@@ -14,6 +15,8 @@ import (
 
 	"github.com/cuteLittleDevil/go-jt808/shared/consts"
 )
+
+var otherConns []net.Conn
 
 func init() {
 	// live-c11 <keys> <actions per worker> <trace>
@@ -36,6 +39,38 @@ func init() {
 					return "", false
 				}
 				return strings.TrimLeft(d[8:10], "0"), d[10:12] != "99"
+			}
+		}
+		// another server in the same process (its own port, its own terminals, all of the keys used below online on it, set up
+		// before this run's hooks are installed): two servers are two registries
+		if opts.keyFunc == nil {
+			service.VerifSetHook(nil)
+			otherAddr := freePort()
+			other := service.New(service.WithHostPorts(otherAddr))
+			go other.Run()
+			r0 := newRand(1111)
+			for i := 0; i < nkeys; i++ {
+				ph := []byte{0x01, 0x36, 0x00, 0x00, byte(i/10%10<<4 | i%10), byte(r0.Intn(10)<<4 | r0.Intn(10))}
+				if i == 0 {
+					ph = make([]byte, 6)
+				}
+				var c net.Conn
+				var err error
+				for k := 0; k < 200; k++ {
+					if c, err = net.DialTimeout("tcp", otherAddr, 100*time.Millisecond); err == nil {
+						break
+					}
+					time.Sleep(10 * time.Millisecond)
+				}
+				if err != nil {
+					die("second server:", err)
+				}
+				c.Write(buildFrame(hdrSpec{id: 0x0002, serial: 1, phone: ph}))
+				c.SetReadDeadline(time.Now().Add(3 * time.Second))
+				if _, err := c.Read(make([]byte, 64)); err != nil {
+					die("second server did not answer:", err)
+				}
+				otherConns = append(otherConns, c) // stay online on the other server for the whole run
 			}
 		}
 		l := startLive(opts)
@@ -80,6 +115,9 @@ func init() {
 					default:
 					}
 					key := keyOf(phones[rr.Intn(nkeys)])
+					if opts.keyFunc != nil && rr.Intn(5) == 0 {
+						key = string(asciiDigits(phones[rr.Intn(nkeys)])) // nobody's key here - though it is the phone number of a terminal
+					}
 					l.sendActive(-1, int(kid.Add(1)), key, consts.P8104QueryTerminalParams, nil, 60*time.Millisecond)
 					time.Sleep(time.Duration(rr.Intn(1500)) * time.Microsecond)
 				}
